@@ -22,16 +22,20 @@ pub fn drive_interleave(out: &mut dyn std::io::Write, seed: u64, thorough: bool)
         let mut cs: BTreeMap<usize, Box<dyn Ciph>> = BTreeMap::new();
         let mut hs: BTreeMap<usize, HSlot> = BTreeMap::new();
         // 2-3 ciphers, 2 hashers to begin with
+        let first_variant = *rng.pick(&chacha::VARIANTS);
         for id in 1..=(2 + rng.below(2) as usize) {
-            let v = *rng.pick(&chacha::VARIANTS);
+            // the first two ciphers are of the same type (different keys): shared per-type state would mix them up
+            let v = if id <= 2 { first_variant } else { *rng.pick(&chacha::VARIANTS) };
             let key = rng.bytes(32);
             let nonce = rng.bytes(chacha::nonce_len(v));
             k += 1;
             Ev::new(k, "cnew").i("i", id as i64).s("variant", v).bytes("key", &key).bytes("nonce", &nonce).s("res", "ok").emit(out);
             cs.insert(id, chacha::make(v, &key, &nonce));
         }
-        for id in 1..=2usize {
-            let (alg, n) = *rng.pick(&hashes::C08_ALGS);
+        let first_alg = *rng.pick(&hashes::C08_ALGS);
+        for id in 1..=3usize {
+            // two hashers of the same algorithm plus one of another
+            let (alg, n) = if id <= 2 { first_alg } else { *rng.pick(&hashes::C08_ALGS) };
             k += 1;
             Ev::new(k, "hadd").i("i", id as i64).s("alg", alg).i("n", hashes::out_size(alg, n) as i64).s("res", "ok").emit(out);
             hs.insert(id, HSlot { h: hashes::make_hash(alg, n), alg: alg.to_string(), n, msg: vec![] });
